@@ -396,7 +396,7 @@ theorem hist_lev_edit_parcor (h : Heap L) (hw : h.wf) (r : List L) (order : Nat)
   have hd : stripZeros ((⟨h.cells ++ [a, [1]],
       h.filts ++ [some ⟨h.cells.length, h.cells.length + 1, some e⟩]⟩ : Heap L).cell (h.cells.length + 1))
       = [(1 : L)] := by
-    simp [Heap.cell, List.getD_eq_getElem?_getD, List.getElem?_append_right, stripZeros]
+    simp [Heap.cell, List.getD_eq_getElem?_getD, stripZeros]
   have := hist_edit_then_parcor _ hw' h.filts.length _ hf' 1 hd ks h1 hlast
   rw [show run h [.lev r order, .setPoly h.filts.length .num (stepUp ks), .parcor h.filts.length]
       = ((run (step h (.lev r order)).1 [.setPoly h.filts.length .num (stepUp ks),
